@@ -119,6 +119,14 @@ def rust_debug_str(t):
     return out + '"'
 
 
+FALLBACK_DOCS = {
+    "Tagging": b'<?xml version="1.0" encoding="UTF-8"?><Tagging xmlns="http://s3.amazonaws.com/doc/2006-03-01/"><TagSet><Tag><Key>k</Key><Value>v</Value></Tag></TagSet></Tagging>',
+    "Delete": b'<?xml version="1.0" encoding="UTF-8"?><Delete xmlns="http://s3.amazonaws.com/doc/2006-03-01/"><Object><Key>k</Key></Object><Quiet>true</Quiet></Delete>',
+    "CORSConfiguration": b'<?xml version="1.0" encoding="UTF-8"?><CORSConfiguration xmlns="http://s3.amazonaws.com/doc/2006-03-01/"><CORSRule><AllowedMethod>GET</AllowedMethod><AllowedOrigin>*</AllowedOrigin></CORSRule></CORSConfiguration>',
+    "CompletedMultipartUpload": b'<?xml version="1.0" encoding="UTF-8"?><CompleteMultipartUpload xmlns="http://s3.amazonaws.com/doc/2006-03-01/"><Part><ETag>e</ETag><PartNumber>1</PartNumber></Part></CompleteMultipartUpload>',
+}
+
+
 def drop_required(rng, sch, Tn, doc):
     """the document without one of its required elements: (bytes, "Type.Element"), or None when it has none"""
     tree = C13.parse_tree(doc)
@@ -228,14 +236,15 @@ def gen_member(rng, m, loc, req, ts, ki, where):
     raise ValueError((m, k))
 
 
-def build_case(T, rng, op, present, fault=None):
+def build_case(T, rng, op, present, fault=None, style=None):
     """encodes one input. `present`: set of optional members to send. Returns (case, sent, info)"""
     o = T.ops[op]
     mem = T.members(op)
     # keys as a client may choose them: also beginning with a slash, with the bucket's own name, ending in a slash
     bucket, key = "my-bucket", rng.choice(["k", "dir/a b.txt", "é中/x", "a+b%25", "q?x=1#f", "*", "/abs/path.txt", "//two/slashes", "my-bucket/inner", "dir/"])
     # both addressing styles carry the same members: path-style, and virtual-hosted-style under a configured base domain
-    style = "vh" if rng.below(3) == 0 and o["kind"] in ("SK KBucket", "SK KObject") else "path"
+    drawn = "vh" if rng.below(3) == 0 else "path"
+    style = (style or drawn) if o["kind"] in ("SK KBucket", "SK KObject") else "path"
     headers, query, body, sent = [("host", "s3.example.com")], [], b"", {}
     payload = None
     for t in o["tags"]:
@@ -365,7 +374,7 @@ def run(ctx):
     rng = ctx.rng
     ctx.cov["rule"] = ("a case is one encoded input of one operation sent through S3Service::call and compared member by member at the backend, "
                        "or one rejection case; distinct = distinct (operation, member set, outcome)")
-    r = ctx.coq(imports=IMPORTS)
+    r = ctx.coq(imports=sorted(set(IMPORTS + C13.IMPORTS + ["model.Timestamp"])))
     if not r["ok"]:
         ctx.violation(dict(stage="proof", kind="theorem or table obligation broken", issues=r["issues"]), has_input=False)
     T = Tables()
@@ -379,8 +388,10 @@ def run(ctx):
         optional = [m for m, loc, req, ts, ki in mem if not req and loc not in ("ILBucket", "ILKey")]
         for i in range(per):
             present = set(optional) if i == 0 else set() if i == 1 else {m for m in optional if rng.below(2)}
-            c = build_case(T, rng, op, present)
+            # the all-members input goes path-style (it is also the one the proxy leg re-sends), the no-members input virtual-hosted-style
+            c = build_case(T, rng, op, present, style=("path" if i == 0 else "vh" if i == 1 else None))
             c["fault"] = None
+            c["all_members"] = (i == 0)
             built.append(c)
     # --- rejections: duplicate every single-valued member, drop every required member, ill-typed values
     faults = []
@@ -421,10 +432,21 @@ def run(ctx):
         terms = {}
         for i, (m, Tn) in need:
             root, ns = T.sch["roots_ser"][Tn]
-            terms[i] = C13.gen_value(rng, T.sch, dict(named=Tn), 0)
+            terms[i] = C13.gen_value(rng, T.sch, dict(named=Tn), 0, full=bool(built[i].get("all_members")))
             exprs.append("doc_of %s %s %s %s" % (cb(Tn), cb(root), "true" if ns else "false", terms[i]))
-        outs = vlib.run_model("C13", C13.IMPORTS, exprs, shard=40, prelude=C13.PRELUDE)
+        try:
+            outs = vlib.run_model("C13", C13.IMPORTS, exprs, shard=40, prelude=C13.PRELUDE)
+        except vlib.ModelError as e:
+            # the XML model cannot be built from today's source (C13 reports why): the search for a failing input goes on with a few hand-written
+            # documents, the other payload cases are left out
+            ctx.violation(dict(stage="model", kind="the XML model of C13 does not build from today's source; payload documents fall back to hand-written ones",
+                               error=str(e)[-600:]), has_input=False)
+            outs = [FALLBACK_DOCS.get(Tn, b"ser-failed") for _, (m, Tn) in need]
+            terms = {i: "" for i in terms}
         for (i, (m, Tn)), d in zip(need, outs):
+            if d == b"ser-failed" and not terms[i]:
+                built[i]["fault"] = ("skip",)          # no document for this type in the fall-back set
+                continue
             docs[i] = (m, Tn, d)
             built[i]["body"] = d
             built[i]["sent"][m] = ("payload", Tn, d, leaf_strings(terms[i]))
@@ -474,6 +496,8 @@ def run(ctx):
         ctx.cov["evaluations"] += 1
         op = c["info"]["op"]
         fault = c["fault"]
+        if fault == ("skip",):
+            continue
         ctx.count("case." + (fault[0] if fault else "valid"))
         if "panic" in r:
             ctx.violation(dict(stage="e2e", kind="the adapter panicked", operation=op, fault=fault, request=case["request"], panic=r["panic"][:300])); continue
@@ -607,7 +631,7 @@ def run_proxy_leg(ctx, T, built, cases, res):
         b = case["request"].get("body")
         if b and b.get("kind") == "bytes":
             # sub-millisecond instants in payload documents (what a client with microsecond clocks sends)
-            d = re.sub(rb"(T\d\d:\d\d:\d\d)\.000Z", rb"\1.123456Z", bytes.fromhex(b["data"]))
+            d = re.sub(rb"(T\d\d:\d\d:\d\d)\.\d\d\dZ", rb"\1.123456Z", bytes.fromhex(b["data"]))
             b["data"] = d.hex()
             case["request"]["headers"] = [[n, (str(len(d)).encode().hex() if n == "content-length" else v)] for n, v in case["request"]["headers"]]
         pcases.append(case)
